@@ -2,7 +2,7 @@
   C11 — the class-name fragment: `__qualname__.rsplit(">.", 1)[-1]` of a class statement nested in
   functions and classes is the dotted path of the scopes after the last function.
 -/
-import AttrsModel.Spec.C11
+import AttrsModel.Spec.C11Base
 
 namespace Attrs.C11
 
